@@ -27,6 +27,9 @@ class SmootherBase(abc.ABC):
         self.fixed.update(set(indexes))
 
     def fix_points(self, points: PointListType):
+        # (points are looked up where they are now)
+        self.grid.points[:] = self.get_positions()
+
         for point in points:
             for junction in self.grid.junctions:
                 if f.norm(point - junction.point) < TOL:
